@@ -23,7 +23,7 @@ from fractions import Fraction
 
 import numpy as np
 
-from .. import core, env, quant, sweep, tlc, trace
+from .. import forms, core, env, quant, sweep, tlc, trace
 
 P_MAX = 15000.0          # highest pressure used (psia); DAK stays inside its range for every lattice gas
 PB_MIN, PB_MAX = 50.0, 12000.0
@@ -130,8 +130,11 @@ def bob_sweep(args):
     # where it started): every element must be the derivative at that element
     gl = [float(x) for x in gors]
     hist = np.array(gl[::-1] + gl[1:], dtype=float)
+    # ... held as the caller holds it: an array, a strided view, a column of a frame that was sorted without reset_index
+    hist_in, hform, unbox = forms.array(hist, int(round(T * 10 + api)), forms=("ndarray", "series_permuted", "strided_view", "series_default"))
+    meta["gor_history_handed_over_as"] = hform
     try:
-        arr = np.asarray(oil.db_o_dgor_Standing(T, api, gg, hist), dtype=float)
+        arr = np.asarray(unbox(oil.db_o_dgor_Standing(T, api, gg, hist_in)), dtype=float)
         if arr.shape != hist.shape:
             arr = np.full(hist.shape, np.nan)
     except Exception:  # noqa: BLE001
